@@ -151,7 +151,12 @@ def run(tier, seed):
         raise C.InfraError("only %d cases generated" % len(gen))
     total = len(gen)
     if tier == "quick":
-        gen = rnd.sample(gen, 30000)
+        # the cases with one register as source and destination are few: all of them, and a sample of the rest
+        def same_reg(c):
+            w = decode_word(c)
+            return w >= 0x4000 and ((w >> 8) & 15) == (w & 15) and ((w >> 4) & 3) >= 2
+        same = [c for c in gen if same_reg(c)]
+        gen = rnd.sample(same, min(len(same), 4000)) + rnd.sample(gen, 30000)
     cases = []
     for i, c in enumerate(gen):
         regs = ";".join("r%d:%d" % (n, v) for n, v in enumerate(c["reg"]))
